@@ -57,4 +57,77 @@ def pySortedBy {α : Type} (key : α → Int) : List α → List α
   | [] => []
   | a :: as => pyInsertBy key a (pySortedBy key as)
 
+/-! ### added for task R1 (dicts, early return, slices, `min`/`max`, lexicographic sort keys) -/
+
+/-- `range(a, b)` (empty for `b ≤ a`) -/
+def pyRange2 (a b : Int) : List Int := (List.range (b - a).toNat).map (fun (i : Nat) => a + Int.ofNat i)
+
+/-- `min(xs)` of a non-empty iterable of ints; `0` where Python raises ValueError (empty) -/
+def pyMin : List Int → Int
+  | [] => 0
+  | a :: as => as.foldl min a
+
+/-- `max(xs)` of a non-empty iterable of ints; `0` where Python raises ValueError (empty) -/
+def pyMax : List Int → Int
+  | [] => 0
+  | a :: as => as.foldl max a
+
+/-- the clamping of one slice bound `i` against a length `n` (CPython `PySlice_AdjustIndices`, step 1) -/
+def pyClamp (n : Nat) (i : Int) : Nat :=
+  if i < 0 then (i + Int.ofNat n).toNat else min i.toNat n
+
+/-- `l[a:b]`, `l[:b]`, `l[a:]` (no step): both bounds clamped, empty when `b ≤ a` -/
+def pySlice {α : Type} (l : List α) (a b : Option Int) : List α :=
+  let lo := match a with | none => 0 | some a => pyClamp l.length a
+  let hi := match b with | none => l.length | some b => pyClamp l.length b
+  (l.take hi).drop lo
+
+/-- a dict is an association list with distinct keys in insertion order.  `d.get(k, None)`:
+    the value of the first (only) entry with key `k` -/
+def pyDictGet {κ β : Type} [BEq κ] : List (κ × β) → κ → Option β
+  | [], _ => none
+  | (k, v) :: rest, k0 => if k == k0 then some v else pyDictGet rest k0
+
+/-- `d[k]`; `default` where Python raises KeyError -/
+def pyDictGetItem {κ β : Type} [BEq κ] [Inhabited β] (d : List (κ × β)) (k : κ) : β :=
+  (pyDictGet d k).getD default
+
+/-- `d[k] = v`: overwrite in place (the key keeps its position) or append at the end -/
+def pyDictSet {κ β : Type} [BEq κ] : List (κ × β) → κ → β → List (κ × β)
+  | [], k0, v0 => [(k0, v0)]
+  | (k, v) :: rest, k0, v0 => if k == k0 then (k, v0) :: rest else (k, v) :: pyDictSet rest k0 v0
+
+/-- `d.setdefault(k, v)`: (the dict afterwards, the value returned) -/
+def pyDictSetdefault {κ β : Type} [BEq κ] (d : List (κ × β)) (k : κ) (v : β) : List (κ × β) × β :=
+  match pyDictGet d k with
+  | some x => (d, x)
+  | none => (pyDictSet d k v, v)
+
+/-- `{k: v for …}` / `dict(pairs)`: the pairs are stored from left to right -/
+def pyDictOfList {κ β : Type} [BEq κ] (ps : List (κ × β)) : List (κ × β) :=
+  ps.foldl (fun d p => pyDictSet d p.1 p.2) []
+
+/-- `for x in xs: body` where the body may `return v`: the state is threaded through the iterations until
+    one returns; `.error v` is the early `return v`, `.ok st` the state when the loop ran to its end -/
+def pyForReturn {α σ ρ : Type} (xs : List α) (init : σ) (body : σ → α → Except ρ σ) : Except ρ σ :=
+  match xs with
+  | [] => .ok init
+  | x :: rest =>
+    match body init x with
+    | .error r => .error r
+    | .ok st => pyForReturn rest st body
+
+/-- tuple comparison `(a1, a2) < (b1, b2)` of int pairs -/
+def pyLexLt (a b : Int × Int) : Bool := decide (a.1 < b.1) || (a.1 == b.1 && decide (a.2 < b.2))
+
+/-- stable insertion for `pySortedByLex` -/
+def pyInsertByLex {α : Type} (key : α → Int × Int) (a : α) : List α → List α
+  | [] => [a]
+  | b :: bs => if pyLexLt (key b) (key a) then b :: pyInsertByLex key a bs else a :: b :: bs
+
+/-- `sorted(seq, key=key)` / `seq.sort(key=key)` with a pair of ints as key: STABLE, lexicographic -/
+def pySortedByLex {α : Type} (key : α → Int × Int) : List α → List α
+  | [] => []
+  | a :: as => pyInsertByLex key a (pySortedByLex key as)
+
 end SymmModel.Gen
